@@ -5,7 +5,8 @@
   Observable facts used (see harness/envh): per request a segment of events in
   global order: moment markers (start/finish), probe-call entry XS and exit XE,
   task-hook triggers H, scripted bodies B, the request's end R; and at the very end
-  of the trace Q: how many results are still held by call goroutines (clause (f)).
+  of the trace Q: how many results are still held by call goroutines (clause (f)); the
+  pending list of every R record (clause (g)).
 -/
 import ControlModel.Spec.C01
 
@@ -75,27 +76,52 @@ def notBeforeTrigger (hooks : List Hook) (seen : List String) (td : Bool) (seg :
 def occurrence (seg : List IEv) (name : String) (p : Nat) : Nat :=
   ((seg.take p).zipIdx.foldl (fun acc (e, i) => if isMark name false e then i + 1 else acc) 0)
 
+/-- hooks (ids) with a failing execution recorded among the events: probe exits with `fails`, task-hook
+    records with a failure -/
+def failedIn (es : List IEv) : List Nat :=
+  (es.map fun
+    | .xe h _ true _ _ => [h]
+    | .tasks is => is.filterMap (fun (h, _, f) => if f then some h else none)
+    | _ => []).flatten
+
+/-- "…unless a critical failure stopped the pass": some CRITICAL hook that is collected at moment `m` at a
+    weight w with lo ≤ w < hi — a task hook triggered there, a call awaited there — has failed (its id is in
+    `failed`). handleHooks stops a pass at the first weight with a critical failure, so the points above it
+    are not reached in that occurrence of the moment. -/
+def passStoppedBefore (hooks : List Hook) (failed : List Nat) (m : Moment) (lo hi : Int) : Bool :=
+  hooks.any fun g => g.critical && failed.contains g.id &&
+    (if g.isTask then decide (g.trig = m ∧ lo ≤ g.tw ∧ g.tw < hi) else decide (g.await = m ∧ lo ≤ g.aw ∧ g.aw < hi))
+
 /-- (c) await barrier for calls whose await point lies LATER IN THE SAME MOMENT as
     their trigger (same moment, await weight ≥ trigger weight, and both weights in the
-    same pass): the moment's finish marker comes after the call's exit. -/
+    same pass): the moment's finish marker comes after the call's exit — unless a critical
+    failure at a weight from the call's trigger weight up to (not including) its await weight
+    stopped the pass before the await point was reached (`passStoppedBefore`; `failed` = what
+    failed in earlier requests). No hypothesis on the hooks any more: since "fix: handleHooks
+    visits the await weight of a call it starts at the same trigger" the code meets this for a
+    strictly later weight too (`C08_await_same_moment_code`); a violation is a plain VIOLATION. -/
 def samePass (a b : Int) : Bool := (decide (a < 0)) == (decide (b < 0))
 
-def awaitBarrierSameMoment (hooks : List Hook) (seg : List IEv) : Bool :=
+def awaitBarrierSameMoment (hooks : List Hook) (failed : List Nat) (seg : List IEv) : Bool :=
   (xsOf seg).all fun (h, k) =>
     match findHook hooks h with
     | none => false
     | some hk =>
       if hk.await = hk.trig ∧ hk.tw ≤ hk.aw ∧ samePass hk.tw hk.aw ∧ hk.trig ≠ .destroy ∧ hk.trig ≠ .afterDestroy then
-        match indexOf? seg (isXs h k), indexOf? seg (isXe h k) with
-        | some px, some pe =>
+        match indexOf? seg (isXs h k) with
+        | none => false
+        | some px =>
           -- the occurrence of the trigger moment this call belongs to: the last start marker before its
           -- entry; the call must have returned before THAT occurrence's finish marker
           let ps := occurrence seg hk.trig.name px
           if ps = 0 then false
-          else match indexOf? (seg.drop ps) (isMark hk.trig.name true) with
-            | some d => pe < ps + d
-            | none => true            -- the moment did not finish (run-number failure path)
-        | _, _ => false             -- never returned within the request
+          else
+            let fin := (indexOf? (seg.drop ps) (isMark hk.trig.name true)).map (ps + ·)
+            passStoppedBefore hooks (failed ++ failedIn (seg.take (fin.getD seg.length))) hk.trig hk.tw hk.aw ||
+              (match indexOf? seg (isXe h k), fin with
+               | some pe, some pf => pe < pf
+               | some _, none => true       -- the moment did not finish (run-number failure path)
+               | none, _ => false)          -- never returned within the request
       else true
 
 /-- (d) weight order among hooks that are awaited at their own trigger point and were
@@ -126,43 +152,79 @@ def balanced (tr : ITrace) : Bool :=
   xs.length == xe.length && xs.all (fun p => xe.contains p) &&
     xs.all (fun p => (xs.filter (· == p)).length == 1)
 
-/-- (f) every started call is collected, or cancelled at teardown — none is left over: when the
-    case ends (all calls have returned; `Q n` record) the results still held by call goroutines
-    are at most those the environment still lists as pending an await, and none at all once the
-    environment has been torn down. -/
+/-- (f) every started call is collected, or cancelled at teardown — none is left over and none is lost: when
+    the case ends (all calls have returned; `Q n` record) the results still held by call goroutines
+    are at most those the environment still lists as pending an await — EXACTLY those when no teardown was
+    ever requested (only a teardown cancels a call: a listed call whose goroutine has let go of its result by
+    itself can never be collected) — and none at all once the environment has been torn down. -/
 def lastReqEnd (tr : ITrace) : Option IEv :=
   (tr.filter fun | .reqEnd .. => true | _ => false).getLast?
 
-def noLeftover (tr : ITrace) : Bool :=
+def noLeftover (reqs : List Req) (tr : ITrace) : Bool :=
+  let anyTeardown := reqs.any fun | .teardown .. => true | _ => false
   match tr.getLast? with
   | some (.quiesce n) =>
     (match lastReqEnd tr with
-     | some (.reqEnd _ _ _ _ pend gone) => if gone then n == 0 else decide (n ≤ (pend.map (·.2.2)).foldl (· + ·) 0)
+     | some (.reqEnd _ _ _ _ pend gone) =>
+       let listed := (pend.map (·.2.2)).foldl (· + ·) 0
+       if gone then n == 0 else if anyTeardown then decide (n ≤ listed) else n == listed
      | _ => n == 0)
   | _ => false
 
-def specC08Segs (hooks : List Hook) : List Req → St → List String → Bool → List (List IEv) → Bool
-  | [], _, _, _, [] => true
-  | q :: qs, s, seen, td, seg :: segs =>
+/-- (g) collected where awaited, across moments and transitions: once a moment has run to its finish marker
+    within a request — and no critical failure below weight `w` stopped its passes before they reached `w`
+    (`passStoppedBelow`) — what the environment still lists as pending at (moment, w) when the request ends are
+    at most the calls awaiting there that were started since that occurrence of the moment began (a call
+    triggered at a later moment, or at the same moment above `w`): everything that was pending there before has
+    been collected. Entry records of calls may come late (the call's goroutine writes them), so every entry
+    after the occurrence's start marker counts, to the end of the trace. Teardowns publish no markers and are
+    not judged here (clause (f) is theirs). -/
+def passStoppedBelow (hooks : List Hook) (failed : List Nat) (m : Moment) (hi : Int) : Bool :=
+  hooks.any fun g => g.critical && failed.contains g.id &&
+    (if g.isTask then decide (g.trig = m ∧ g.tw < hi) else decide (g.await = m ∧ g.aw < hi))
+
+/-- per request record: (position of the first event of its segment, its own position, its pending list) -/
+def reqEnds (tr : ITrace) : List (Nat × Nat × List (String × Int × Nat)) :=
+  let rec go : List IEv → Nat → Nat → List (Nat × Nat × List (String × Int × Nat))
+    | [], _, _ => []
+    | .reqEnd _ _ _ _ pend _ :: rest, i, s0 => (s0, i, pend) :: go rest (i + 1) (i + 1)
+    | _ :: rest, i, s0 => go rest (i + 1) s0
+  go tr 0 0
+
+/-- the last occurrence of moment `name` among positions [s0, r) that ran to its finish marker: (start, finish) -/
+def lastCompleteIn (tr : ITrace) (s0 r : Nat) (name : String) : Option (Nat × Nat) :=
+  let seg := (tr.take r).drop s0
+  match seg.zipIdx.foldl (fun acc (e, i) => if isMark name false e then some i else acc) (none : Option Nat) with
+  | none => none
+  | some s => (indexOf? (seg.drop (s + 1)) (isMark name true)).map fun d => (s0 + s, s0 + s + 1 + d)
+
+def pendingSettled (hooks : List Hook) (tr : ITrace) : Bool :=
+  (reqEnds tr).all fun (s0, r, pend) =>
+    pend.all fun (name, w, n) =>
+      match lastCompleteIn tr s0 r name with
+      | none => true
+      | some (s, f) =>
+        let here := hooks.filter fun g => !g.isTask && g.await.name == name && g.aw == w
+        match here.head? with
+        | none => true
+        | some g0 =>
+          let started := ((tr.drop (s + 1)).filter fun | .xs h _ => here.any (·.id == h) | _ => false).length
+          passStoppedBelow hooks (failedIn (tr.take f)) g0.await w || decide (n ≤ started)
+
+def specC08Segs (hooks : List Hook) : List Req → St → List String → Bool → List Nat → List (List IEv) → Bool
+  | [], _, _, _, _, [] => true
+  | q :: qs, s, seen, td, failed, seg :: segs =>
     match obsOf q s seg with
     | none => false
     | some o =>
       -- teardown publishes no step markers: its leave_<state> and DESTROY hooks are judged by weight order only
       let isTeardown := match q with | .teardown .. => true | _ => false
       let td' := td || isTeardown
-      momentOrderOk q s seg && notBeforeTrigger hooks seen td' seg && (isTeardown || awaitBarrierSameMoment hooks seg) &&
-        weightOrderOk hooks seg && specC08Segs hooks qs o.after (seen ++ startMarks seg) td' segs
-  | _, _, _, _, _ => false
+      momentOrderOk q s seg && notBeforeTrigger hooks seen td' seg && (isTeardown || awaitBarrierSameMoment hooks failed seg) &&
+        weightOrderOk hooks seg && specC08Segs hooks qs o.after (seen ++ startMarks seg) td' (failed ++ failedIn seg) segs
+  | _, _, _, _, _, _ => false
 
 def specC08 (hooks : List Hook) (reqs : List Req) (tr : ITrace) : Bool :=
-  balanced tr && noLeftover tr && specC08Segs hooks reqs .STANDBY [] false (segments tr [])
-
-/-- Excluded hypothesis of the await-barrier theorem (known finding
-    `await_weight_not_visited`): no call awaits a point of its own trigger moment with a
-    strictly larger weight in the same pass that no hook or earlier pending call makes
-    handleHooks visit. Conservative syntactic form: there is no call hook with
-    await moment = trigger moment and await weight > trigger weight at all. -/
-def noLaterSameMomentAwait (hooks : List Hook) : Bool :=
-  hooks.all fun h => h.isTask || !(h.await = h.trig ∧ h.tw < h.aw)
+  balanced tr && noLeftover reqs tr && pendingSettled hooks tr && specC08Segs hooks reqs .STANDBY [] false [] (segments tr [])
 
 end EnvM
